@@ -406,3 +406,19 @@ package sender
 //@   at[C12,C15] rsyncchecksum.ReaderChecksum: set ghost.csReader = data(arg0)
 //@   at[C12,C15] (sender.FileSource).Open: assert [checksum-of-the-listed-file] arg1 == path
 //@   at[C12,C15] (*rsyncwire.Buffer).WriteString@3: assert [checksum-is-the-md4-of-the-content] modeIsRegular(infoMode(data(info))) ==> arg1 == str(checksum) && bid(checksum) == md4Of(accApp(accEmpty, readerContent(ghost.csReader)))
+
+// ---------------------------------------------------------------- C06: names handed to os.Root by the sender
+// The sender opens what it walked: names produced by fs.WalkDir, kept in the
+// file list. None ends in a slash (see the os.Root contracts: with Go 1.25.0
+// such a name would follow a symlink in the last component out of the module).
+//@ fieldinv sender.file.path: !hasSuffix(v, "/")
+//@ extern (sender.FileSource).Open params s, name
+//@   requires[C06] [name-without-trailing-slash] !hasSuffix(name, "/")
+//@ extern (sender.FileSource).Readlink params s, name
+//@   requires[C06] [name-without-trailing-slash] !hasSuffix(name, "/")
+//@ func (*sender.osRootSource).Open
+//@   requires[C06] [name-without-trailing-slash] !hasSuffix(name, "/")
+//@ func (*sender.osRootSource).Readlink
+//@   requires[C06] [name-without-trailing-slash] !hasSuffix(name, "/")
+//@ func (*sender.scopedWalker).walkFn
+//@   requires[C06] [walked-name-without-trailing-slash] !hasSuffix(path, "/")
